@@ -258,3 +258,41 @@ Definition c19_rsplit (c : bytes) (start : N) := rev_split c start.
 Definition c19_rparse (c : bytes) (start : N) := rev_parse c start.
 Definition c19_old (m : bytes) (pos : N) : outcome (name * N) := decode_name m pos (mlen m).
 Definition c19_class (m : bytes) (pos : N) : kres := kclass m pos.
+
+(* ---- Part 3: questions and (untyped) records of the new API ----
+   new/base/question.rs Question::split_message_bytes, new/base/record.rs
+   Record::split_message_bytes with D = &UnparsedRecordData,
+   new/base/parse/mod.rs split_without_compression over U16 / U32 fields. *)
+Definition PN_SLICE : N := 24.   (* &contents[start..] with start > len *)
+
+Definition nfield (k : nat) (c : bytes) (start : N) : outcome (bytes * N) :=
+  if len c <? start then Panic PN_SLICE else
+  let bs := firstn k (skipn (N.to_nat start) c) in
+  if Nat.ltb (length bs) k then Err E_PARSE else Ok (bs, start + N.of_nat k).
+Definition be_val (l : bytes) : N := fold_left (fun acc b => acc * 256 + b) l 0.
+Definition nu16 (c : bytes) (start : N) : outcome (N * N) :=
+  do r <- nfield 2 c start; Ok (be_val (fst r), snd r).
+Definition nu32 (c : bytes) (start : N) : outcome (N * N) :=
+  do r <- nfield 4 c start; Ok (be_val (fst r), snd r).
+
+(* (qname wire, qtype, qclass, end) *)
+Definition new_question (c : bytes) (start : N) : outcome (bytes * N * N * N) :=
+  do r <- new_split c start;
+  do ty <- nu16 c (snd r);
+  do cl <- nu16 c (snd ty);
+  Ok (fst r, fst ty, fst cl, snd cl).
+
+(* (rname wire, rtype, rclass, ttl, start of RDATA, end) *)
+Definition new_record (c : bytes) (start : N) : outcome (bytes * N * N * N * N * N) :=
+  do r <- new_split c start;
+  do ty <- nu16 c (snd r);
+  do cl <- nu16 c (snd ty);
+  do ttl <- nu32 c (snd cl);
+  do sz <- nu16 c (snd ttl);
+  let rest := snd sz + fst sz in
+  if len c <? rest then Err E_PARSE                  (* contents.get(..rest) *)
+  else if 65535 <? fst sz then Err E_PARSE           (* UnparsedRecordData: at most 65535 octets *)
+  else Ok (fst r, fst ty, fst cl, fst ttl, snd sz, rest).
+
+Definition c19_question (c : bytes) (start : N) := new_question c start.
+Definition c19_record (c : bytes) (start : N) := new_record c start.
